@@ -231,6 +231,24 @@ def refine(ctx, m):
     return added
 
 
+def _exact_unsat(ctx, neg):
+    try:
+        x, y = z3.Var(0, z3.RealSort()), z3.Var(1, z3.RealSort())
+        subs = ((core._MUL, x * y), (core._DIV, x / y))
+        s2 = z3.Solver()
+        s2.set("timeout", max(ctx.timeout_ms, 20000))
+        for a in ctx.s.assertions():
+            s2.add(z3.substitute_funs(a, *subs))
+        s2.add(z3.substitute_funs(neg, *subs))
+        ctx.nq += 1
+        t = time.time()
+        r = s2.check()
+        ctx.tsolve += time.time() - t
+        return r == z3.unsat
+    except z3.Z3Exception:
+        return False
+
+
 def prove_with_refinement(ctx, label, cond):
     """Ctx.prove + function-level replay + CEGAR on the abstractions. Returns verdict string."""
     if ctx.want is not None:
@@ -270,10 +288,11 @@ def prove_with_refinement(ctx, label, cond):
             ctx.obls.append((label, "sat-confirmed", vals, None))
             return False
         has_abs = bool(ctx.uf_terms) or bool(ctx.nl_seen)
-        if rounds >= ctx.refine_rounds or not has_abs:
-            ctx.obls.append((label, "sat-unconfirmed", vals, None))
-            return False
-        if refine(ctx, m) == 0:
+        if rounds >= ctx.refine_rounds or not has_abs or refine(ctx, m) == 0:
+            # last resort: the abstract products/quotients replaced by exact multiplication/division (nonlinear real arithmetic)
+            if ctx.nl_seen and _exact_unsat(ctx, neg):
+                ctx.obls.append((label, "unsat-refined", None, None))
+                return True
             ctx.obls.append((label, "sat-unconfirmed", vals, None))
             return False
         rounds += 1
